@@ -539,9 +539,10 @@ def unmEnum (s : Schema) (n : String) (v : Raw) (path : Path) : Res GoV :=
 
 abbrev Rec := Ty → Sh → Raw → Path → Res GoV
 
-/-- the slice branch of type.gotpl: `CoerceList`, then every item under its index -/
-def unmSlice (rec : Rec) (et : Ty) (el : Sh) (v : Raw) (path : Path) : Res GoV :=
-  match mapIdxE (fun i x => rec et el x (path ++ [toString i])) 0 (coerceList v) with
+/-- the slice branch of type.gotpl: `CoerceList`, then every item (`item` = the item type's unmarshal
+    function) under its index -/
+def unmSlice (item : Raw → Path → Res GoV) (v : Raw) (path : Path) : Res GoV :=
+  match mapIdxE (fun i x => item x (path ++ [toString i])) 0 (coerceList v) with
   | .ok xs => .ok (.slice xs)
   | .error e => .error e
 
@@ -586,10 +587,10 @@ def unmMap (s : Schema) (c : Cfg) (rec : Rec) (n : String) (v : Raw) (path : Pat
      | .error e => .error e)
   | _, _ => .error (.panic "interface conversion: not map[string]interface {}")
 
-/-- The unmarshal function generated for (GraphQL type `t`, Go shape `sh`) applied to `v` at `path`. -/
-def unm (s : Schema) (c : Cfg) : Nat → Ty → Sh → Raw → Path → Res GoV
-  | 0, _, _, _, _ => .error .fuel
-  | f + 1, t, sh, v, path =>
+/-- The unmarshal function generated for (GraphQL type `t`, Go shape `sh`), up to the input objects it reaches
+    (`obj n isMap` = `unmarshalInput<n>`): by recursion on the Go shape. -/
+def unmSh (s : Schema) (obj : String → Bool → Raw → Path → Res GoV) : Sh → Ty → Raw → Path → Res GoV
+  | sh, t, v, path =>
     -- type.gotpl: a null reaching the unmarshal function of a non-null type is a coercion error
     if v.isNil && t.nn then .error (.err path "null") else
     match sh with
@@ -599,16 +600,25 @@ def unm (s : Schema) (c : Cfg) : Nat → Ty → Sh → Raw → Path → Res GoV
     | .enum n => unmEnum s n v path
     | .ptr inner =>
       if v.isNil then .ok .nil
-      else (match unm s c f t inner v path with
+      else (match unmSh s obj inner t v path with
         | .ok g => .ok (.ptr g)
         | .error e => .error e)
     | .slice el =>
       if v.isNil then .ok .nilSlice
       else (match t with
-        | .list et _ => unmSlice (unm s c f) et el v path
+        | .list et _ => unmSlice (unmSh s obj el et) v path
         | _ => .error (.panic "slice shape for a named type"))
-    | .mapIn n => if v.isNil then .ok .nilMap else unmMap s c (unm s c f) n v path
-    | .struct n => unmStruct s c (zero s c f) (unm s c f) n v path
+    | .mapIn n => if v.isNil then .ok .nilMap else obj n true v path
+    | .struct n => obj n false v path
+
+/-- The unmarshal function generated for (GraphQL type `t`, Go shape `sh`) applied to `v` at `path`. Fuel is
+    consumed only when an input object is entered (recursive input types, defaults of defaults). -/
+def unm (s : Schema) (c : Cfg) : Nat → Ty → Sh → Raw → Path → Res GoV
+  | 0 => fun _ _ _ _ => .error .fuel
+  | f + 1 => fun t sh v path =>
+    unmSh s (fun n isMap v path =>
+      if isMap then unmMap s c (unm s c f) n v path
+      else unmStruct s c (zero s c f) (unm s c f) n v path) sh t v path
 
 /-! ## arguments -/
 
